@@ -470,6 +470,11 @@ def main():
         configs.append({"kind": "search", "elem": et, "scatter": 8})
     for et in ["QUAD4", "HEXA8"] + (["QUAD8", "QUAD9", "HEXA20"] if tier == "thorough" else []):
         configs.append({"kind": "search", "elem": et, "distorted": True})
+    # ... and the same after a reflection (signed Jacobians all negative) or a rotation
+    for et in ["QUAD4", "HEXA8"] + (["QUAD8", "QUAD9", "HEXA20"] if tier == "thorough" else []):
+        configs.append({"kind": "search", "elem": et, "distorted": True, "motion": "S"})
+    for et in ["QUAD4"] + (["HEXA8", "QUAD8"] if tier == "thorough" else []):
+        configs.append({"kind": "search", "elem": et, "distorted": True, "motion": "R"})
     for et in ["TRI3", "TRI6", "TETRA4"]:
         configs.append({"kind": "locate", "elem": et, "moved": True})
     # elements whose first edge is not along x: their local frame (_Get_sysCoord_e) differs from the global one once the mesh leaves z = 0
